@@ -182,6 +182,34 @@ def enc_array(a) -> list[int]:
 # --------------------------------------------------------------------------
 # Coq build / audit
 # --------------------------------------------------------------------------
+LAYOUTS = ["C", "C", "C", "F", "T", "S", "R"]
+
+
+def relayout(a, layout):
+    """The same logical array in another memory layout (callers hand geff views, transposes, Fortran-ordered and strided arrays;
+    the models speak about logical contents only): C contiguous, F Fortran order, T transposed view, S strided view (every second item of
+    a larger buffer), R reversed view."""
+    import numpy as np
+
+    if layout in (None, "C") or a.ndim == 0:
+        return a
+    if layout == "F":
+        out = np.asfortranarray(a)
+    elif layout == "T":
+        out = np.ascontiguousarray(a.T).T
+    elif layout == "S":
+        big = np.empty(a.shape[:-1] + (2 * a.shape[-1] + 1,), dtype=a.dtype)
+        big[...] = a.dtype.type() if a.dtype.kind != "U" else ""
+        big[..., 0:2 * a.shape[-1]:2] = a
+        out = big[..., 0:2 * a.shape[-1]:2]
+    elif layout == "R":
+        out = np.ascontiguousarray(a[::-1])[::-1]
+    else:
+        raise HarnessError(f"unknown layout {layout}")
+    assert out.shape == a.shape and out.dtype == a.dtype
+    return out
+
+
 class CoqLock:
     def __enter__(self):
         COQ.mkdir(exist_ok=True)
